@@ -1052,13 +1052,41 @@ static void sigpipe_handler (int sig) {
  * @param line_buffer Line data from console worker (null-terminated)
  * @param line_length Length including null terminator
  */
-static void add_console_line (interactive_t *ip, const char *line_buffer, size_t line_length) {
+static int add_console_line (interactive_t *ip, const char *line_buffer, size_t line_length) {
   if (!ip || (ip->iflags & (NET_DEAD | CLOSING)))
-    return;
+    return (int) line_length;
 
-  int len = (int)(line_length > 0 ? line_length - 1 : 0); /* Exclude null terminator */
-  if (len <= 0 || ip->text_end + len >= MAX_TEXT)
-    return;
+  int len = (int) line_length;
+  if (len <= 0)
+    return 0;
+
+  /* make room: commands that have been executed are still in front of text_start */
+  if (ip->text_start > 0 && ip->text_end + len >= MAX_TEXT)
+    {
+      int rest = ip->text_end - ip->text_start;
+
+      memmove (ip->text, ip->text + ip->text_start, rest + 1);
+      ip->text_start = 0;
+      ip->text_end = rest;
+    }
+  /* Take what fits; the caller keeps the rest until commands have been executed.  (A chunk
+   * from the console worker can be larger than the whole buffer: dropping what does not
+   * fit at once lost every line of a pasted or piped text.) */
+  if (ip->text_end + len >= MAX_TEXT)
+    {
+      len = MAX_TEXT - 1 - ip->text_end;
+      if (len <= 0)
+        {
+          if (!cmd_in_buf (ip))
+            {
+              /* one line longer than the buffer: discard it, as the network ports do */
+              ip->text_start = ip->text_end = 0;
+              len = (int) line_length < MAX_TEXT - 1 ? (int) line_length : MAX_TEXT - 1;
+            }
+          else
+            return 0;
+        }
+    }
 
   /* Convert newlines to null terminators for command parsing */
   const char* from = line_buffer;
@@ -1083,6 +1111,7 @@ static void add_console_line (interactive_t *ip, const char *line_buffer, size_t
       opt_trace(TT_COMM|1, "Console command available in buffer\n");
       ip->iflags |= CMD_IN_BUF;
     }
+  return len;
 }
 
 /**
@@ -1170,15 +1199,32 @@ void process_io () {
                   console_ip = all_users[0];
                 }
               
-              /* Drain all pending lines from queue (always null-terminated) */
+              /* Move console input into the user's buffer: first what was left over from the
+               * last chunk, then further chunks from the queue (always null-terminated) while
+               * they fit.  When the buffer is full of commands that have not been executed
+               * yet, the rest waits here and another completion is posted, so that we come
+               * back after the next command. */
               if (console_ip)
                 {
-                  char line_buffer[CONSOLE_MAX_LINE];
+                  static char line_buffer[CONSOLE_MAX_LINE];
+                  static size_t pending_len = 0, pending_off = 0;
                   size_t line_length;
-                  
-                  while (async_queue_dequeue(g_console_queue, line_buffer, sizeof(line_buffer), &line_length))
+
+                  for (;;)
                     {
-                      add_console_line(console_ip, line_buffer, line_length);
+                      if (pending_off < pending_len)
+                        {
+                          pending_off += add_console_line (console_ip, line_buffer + pending_off, pending_len - pending_off);
+                          if (pending_off < pending_len)
+                            {
+                              async_runtime_post_completion (g_runtime, CONSOLE_COMPLETION_KEY, 0);
+                              break;
+                            }
+                        }
+                      if (!async_queue_dequeue (g_console_queue, line_buffer, sizeof (line_buffer), &line_length))
+                        break;
+                      pending_len = line_length > 0 ? line_length - 1 : 0;	/* without the terminator */
+                      pending_off = 0;
                     }
                 }
             }
